@@ -97,8 +97,12 @@ class Taint:
                 targs = [i for i, a in enumerate(t['args']) if any(l in T for l in operand_locals(a))]
                 fn2 = t['call'].get('fn')
                 if targs and (fn2 is None or self.facts.body(fn2) is None):
-                    if not self.allowed(fn2 or ''):
-                        self.on_violation(b, bi, 'call', fn2)
+                    try:
+                        ok_ext = self.allowed(fn2 or '', t['call'].get('generic') or [])
+                    except TypeError:
+                        ok_ext = self.allowed(fn2 or '')
+                    if not ok_ext:
+                        self.on_violation(b, bi, 'call', (fn2 or '') + ('<%s>' % ','.join(t['call'].get('generic') or []) if t['call'].get('generic') else ''))
         ret = 0 in T
         self.summaries[key] = ret
         self.in_progress.discard(key)
